@@ -1,9 +1,11 @@
-_SHIM = {"verifc10gen/gen.go": "harness/c10gen/gen.go"}
+_SHIM = {"verifc10gen/gen.go": "harness/c10gen/gen.go",
+         # generator of hostile Hugging Face model directories / LoRA adapters (TestC10Convert)
+         "verifc10hf/case.go": "harness/c10hf/case.go", "verifc10hf/build.go": "harness/c10hf/build.go", "verifc10hf/mut.go": "harness/c10hf/mut.go"}
 
 CHECK = {
     "builds": [
         {"mode": "inpkg", "pkg": "fs/ggml", "files": ["c10_decode_test.go"], "shims": _SHIM},
-        {"mode": "inpkg", "pkg": "server", "files": ["c10_api_test.go"], "shims": _SHIM},
+        {"mode": "inpkg", "pkg": "server", "files": ["c10_api_test.go", "c10_convert_test.go"], "shims": _SHIM},
         # the same decoder harness built with fuzz coverage instrumentation (slower, so not used for the rapid target)
         {"mode": "inpkg", "pkg": "fs/ggml", "files": ["c10_decode_test.go"], "shims": _SHIM, "fuzz": "FuzzC10Decode"},
     ],
@@ -12,7 +14,11 @@ CHECK = {
     "technique": "structure-aware mutation testing (rapid, shrinking): a valid GGUF is serialised field by field (both byte "
                  "orders, versions 1-3), 0-3 mutations addressed by field (lengths, counts, dims, types, offsets, alignment, "
                  "value types of well-known keys, truncation at field boundaries, appended data); decoder level with panic / "
-                 "reader-step / allocation observers and API level (blob upload, create, show) on the real gin router",
+                 "reader-step / allocation observers and API level (blob upload, create, show) on the real gin router; "
+                 "the same for Hugging Face style model directories and LoRA adapters (TestC10Convert): a small valid directory per "
+                 "architecture of convert.ConvertModel (own safetensors writer, tokenizer.json / sentencepiece tokenizer.model, the "
+                 "auxiliary json files) + 0-3 mutations addressed by file and field, uploaded and used by POST /api/create "
+                 "(files, or from/files + adapters)",
     "level_text": "Randomised exploration of the field x hostile-constant space of small GGUF files. The hostile constants are "
                   "the boundary values of every integer conversion in the decoder (0, 1, -1, 2^31, 2^32-1, 2^63, 2^64-1, file "
                   "size +-1, remaining +-1, scratch size +-1, collect limit +-1), so each (field kind, constant) pair is hit "
@@ -24,7 +30,13 @@ CHECK = {
                   "(4*len+256) at the decoder level; at the API level a request that has not answered after 20 s, or during which the "
                   "live heap grew by more than 1 GiB, while a goroutine is still inside ollama server/ggml code is reported "
                   "(a liveness bound, the only wall-clock use); each API request also has an allocation budget of 128 MiB + 64*len. "
-                  "In-package harnesses: fs/ggml (unexported Tensor.block only) and server (Server{}, GenerateRoutes).",
+                  "In-package harnesses: fs/ggml (unexported Tensor.block only) and server (Server{}, GenerateRoutes). "
+                  "TestC10Convert first makes the call of the create goroutine itself (server.convertFromSafetensors / convertModelFromFiles, "
+                  "and parseFromModel for the base of an adapter: unexported) on a watched goroutine under recover, so that a panic that would "
+                  "kill the server is reported with its stack and can be shrunk; then the request goes through the router under the API-level "
+                  "observers. Allocation budget per conversion / request: 128 MiB + 64 * (bytes of all uploaded files + request body); a valid "
+                  "directory of this generator (< 20 KiB) converts within ~3 MiB. A conversion that is still running after 20 s or after the "
+                  "live heap grew by 1 GiB cannot be stopped from outside: the case is reported and the worker process exits.",
     "design_ref": "DESIGN.md section 3 C10",
     "mem_gb": 4,
     "targets": [
@@ -34,13 +46,21 @@ CHECK = {
         {"name": "TestC10API", "build": 1,
          "quick": {"cases": 3000, "shards": 2, "soft_s": 40, "gomaxprocs": 4},
          "thorough": {"cases": 40000, "shards": 8, "soft_s": 330, "gomaxprocs": 4}},
+        # Hugging Face directories and LoRA adapters through POST /api/create (package convert behind server/create.go)
+        {"name": "TestC10Convert", "build": 1,
+         "quick": {"cases": 3000, "shards": 2, "soft_s": 40, "gomaxprocs": 4},
+         "thorough": {"cases": 30000, "shards": 8, "soft_s": 330, "gomaxprocs": 4}},
         # native coverage-guided fuzzing of ggml.Decode over arbitrary byte strings, seeded with structured files;
         # thorough tier only (cannot be pinned to VERIF_SEED; the saved input is the reproducible unit)
         {"name": "FuzzC10Decode", "build": 2, "kind": "fuzz",
          "thorough": {"fuzztime": "90s", "workers": 12, "hard_s": 600}},
     ],
     "floors": {"header_ok": 0.5, "decoded_ok_after_mutation": 0.05, "mut:set:strlen": 0.01, "mut:set:arrcount": 0.01,
-               "mut:set:dims": 0.01, "mut:set:alignment": 0.005, "mut:trunc_field": 0.03, "retyped_wellknown_key": 0.1},
+               "mut:set:dims": 0.01, "mut:set:alignment": 0.005, "mut:trunc_field": 0.03, "retyped_wellknown_key": 0.1,
+               # TestC10Convert (fractions of that target's evaluations)
+               "hf:unmutated_converts_ok": 0.12, "hf:mutated_converts_ok": 0.08, "hfmut:st": 0.2, "hfmut:cfg": 0.08, "hfmut:tok": 0.025,
+               "hfmut:spm": 0.02, "hfmut:tokcfg": 0.015, "hfmut:stmap": 0.015, "hfmut:dir": 0.02, "hf:adapter": 0.12, "hfmut:acfg": 0.03,
+               "hf:adapter_create_ok": 0.015},
     "rule": "rapid-generated: structurally valid GGUF (LE/BE, version 1/2/3/other, well-known keys with canonical or other "
             "value types, arrays around the 1024 collect limit, strings around the 16 KiB scratch size, 0-6 tensors) + 0-3 "
             "mutations addressed by field (set to a hostile constant, backward-seek tensor size, truncate at/inside a field or "
@@ -48,11 +68,30 @@ CHECK = {
             "step and allocation observers, then the metadata accessors create/show/load use. API level: POST /api/blobs, POST "
             "/api/create (stream false and true, then from), POST /api/show (plain, verbose), GET /api/version. Non-trivial = the "
             "input keeps a recognised magic and a complete header and differs from a valid file in at least one field (byte "
-            "change or mistyped well-known key); distinct = distinct hash of the generated case.",
+            "change or mistyped well-known key); distinct = distinct hash of the generated case. "
+            "TestC10Convert: a tiny complete model directory (hidden size 2-16, 1-2 layers, 8-39 tokens) for each of the 11 architecture "
+            "names convert.ConvertModel accepts (Llama, Mixtral, Gemma, Gemma2, Gemma3 causal / conditional, Phi3, Qwen2, Bert + modules.json, "
+            "Cohere, Mistral3; rope_scaling variants), tokenizer.json (BPE / WordPiece, merges as strings or pairs, added tokens, five "
+            "pre_tokenizer shapes) and/or tokenizer.model (sentencepiece protobuf built with the repository's generated types), optional "
+            "tokenizer_config / special_tokens_map / added_tokens / generation_config, 1-3 safetensors files (F32/F16/BF16, __metadata__, "
+            "padded header, index file); or, in a quarter of the cases, a LoRA adapter (peft or mlx naming, r / lora_parameters) over a base "
+            "that is a GGUF with canonical, retyped or missing well-known keys or the model directory itself, named by `from` or sent as "
+            "`files`. 0-3 mutations addressed by file kind and field: safetensors header length (hostile constants, file size +-1), "
+            "data_offsets (reversed, beyond the file, negative, overlapping, wrong arity / type), dtype, shape (zero, huge, product mismatch, "
+            "rank changes that keep the product, empty tensors), tensor names (dropped, duplicated, aliased, unexpected, role changes), header "
+            "json shapes, truncation at / inside fields; config.json members set to numbers as strings, arrays, negative / zero / huge values, "
+            "architectures and rope_scaling variants, non-json; tokenizer.json without model / vocab, ids negative / duplicated / huge / "
+            "mistyped, malformed merges and added_tokens; tokenizer.model truncated / garbage / odd piece types; the auxiliary json files with "
+            "wrong-typed members; files dropped, emptied, renamed (valid paths only), swapped, torch files. Requests: POST /api/blobs for "
+            "every file, POST /api/create (stream drawn; files, files+adapters or from+adapters), POST /api/show (plain, verbose) after a "
+            "reported success, GET /api/version, /api/tags. Non-trivial = at least one mutation changed the directory.",
     "assumptions": [
         "the allocation delta is taken on a process whose only busy goroutine is the harness (GOMAXPROCS 2); small allocations are counted with span granularity (< 1 MiB error against a 16 MiB floor)",
         "GraphSize is only exercised when the declared block count is <= 4096 (it allocates one uint64 per declared block by design)",
         "API level: a request still inside ollama code after 20 s, or after growing the live heap by 1 GiB, on a < 200 KiB file counts as non-terminating / runaway",
         "the predictor of the pinned decoder (verifc10gen.Predict) is used only to exclude listed findings and for counters",
+        "TestC10Convert: a recovered panic of the direct call is attributed to a listed finding by the innermost ollama function on its stack, the panic text and facts about the uploaded bytes (c10cClassify); allocation / non-termination classes of listed findings are excluded from the bytes (c10cPredict); both only while the finding is listed",
+        "TestC10Convert: server.detectModelTypeFromFiles walks the request's file map in Go's random order and stops at the first member it cannot read four bytes of, so a directory with an empty member is converted or rejected as 'unknown type' by chance; the direct call always takes the converting branch, the request takes whichever the map order gives",
+        "TestC10Convert: `from` is only used with a base model the case has just created (an absent model would be pulled from the network)",
     ],
 }
